@@ -250,6 +250,8 @@ type World struct {
 	ArmSeq    map[*simrt.Task]uint64 // sequence number at which a timer task was armed / a goroutine spawned
 	SpawnHook func(t *simrt.Task)    // scenario hook, called when the stack spawns a goroutine or arms a timer
 	uniq      int
+	// GenStructs: generated items and wide selectors also carry structured elements
+	GenStructs bool
 
 	States map[string]struct{} // distinct abstract states (hashes) seen
 }
